@@ -595,6 +595,9 @@ PROPS = {
                   'Meddly.Reach.lfp_congr_init',
                   'Meddly.Reach.post_lfp_sub',
                   'Meddly.Reach.lfp_ext',
+                  'Meddly.Reach.dist_isSome_iff_mem_lfp',
+                  'Meddly.Reach.dist_zero_iff',
+                  'Meddly.Reach.dist_mono_init',
                   'Meddly.Spec.ReachTables.reachList_spec',
                   'Meddly.Spec.ReachTables.distList_spec'],
      'quick': [{'family': 'reach', 'flavor': 'plain', 'args': {'allow': 'F4,F7,F8,F9,F10'}}],   # F4, F10 repaired by fix: commits: no steering
